@@ -590,3 +590,85 @@ def r_copyto(d):
     finally:
         shutil.rmtree(top, ignore_errors=True)
         hb.rootpath = None
+
+
+# ------------------------------------------------------------------- C10/C11/C12: directory handler scenarios
+@realiser("pygopherd/handlers/dir.py::DirHandler.")
+def r_dir(d):
+    """Scenario replay on a scratch directory with the real DirHandler/UMNDirHandler: every prefix of a real
+    cache file and a zero-filled one (C11), stale/fresh cache and hit-does-not-rewrite (C10), unservable
+    children (C12)."""
+    import pickle, shutil, tempfile, time
+    import pygopherd.handlers.base as hb
+    import pygopherd.handlers.HandlerMultiplexer as hm
+    from pygopherd.handlers.dir import DirHandler
+    from pygopherd.handlers.UMN import UMNDirHandler
+    from pygopherd import logger
+    logger.log = lambda m: None
+    top = tempfile.mkdtemp(prefix="pyvc-dir-", dir="/var/tmp")
+    name = d["obligation"]
+    try:
+        for f in ("a.txt", "b.txt", "c.txt"):
+            open(os.path.join(top, f), "w").write(f)
+        cfg = _config({})
+        cfg.set("pygopherd", "root", top)
+        cfg.set("handlers.dir.DirHandler", "cachetime", "180")
+
+        def mk(cls=DirHandler):
+            hb.rootpath = None; hm.rootpath = None; hm.handlers = None
+            st = os.stat(top)
+            return cls("/", "", None, cfg, st)
+
+        cachefile = os.path.join(top, cfg.get("handlers.dir.DirHandler", "cachefile"))
+        h = mk(); h.prepare(); h.getdirlist()
+        good = open(cachefile, "rb").read() if os.path.exists(cachefile) else b""
+        if "loadcache" in name or "prepare" in name:
+            # C11: any prefix of the cache / zero fill must be harmless
+            for n in list(range(0, len(good))) + [-1]:
+                data = good[:n] if n >= 0 else b"\\0" * len(good)
+                open(cachefile, "wb").write(data)
+                for cls in (DirHandler, UMNDirHandler):
+                    h = mk(cls)
+                    try:
+                        h.prepare()
+                        names = sorted(e.selector for e in h.getdirlist())
+                    except Exception as e:  # noqa
+                        return {"confirmed": True, "scenario": "cache file cut to %d of %d bytes" % (n, len(good)), "handler": cls.__name__, "raised": repr(e)}
+                    if names != ["/a.txt", "/b.txt", "/c.txt"]:
+                        return {"confirmed": True, "scenario": "cache file cut to %d bytes" % n, "listing": names}
+            # C10: a stale cache is never used
+            open(cachefile, "wb").write(pickle.dumps([], 1))
+            old = time.time() - 10000
+            os.utime(cachefile, (old, old))
+            h = mk(); h.prepare()
+            if h.fromcache or len(h.fileentries) != 3:
+                return {"confirmed": True, "scenario": "cache older than its lifetime was used", "entries": len(h.fileentries)}
+            # and a fresh one is (with an empty pickled list the listing is empty)
+        if "savecache" in name or "getdirlist" in name:
+            h = mk(); h.prepare(); h.getdirlist()
+            m0 = os.stat(cachefile).st_mtime_ns
+            past = time.time() - 60
+            os.utime(cachefile, (past, past))
+            m1 = os.stat(cachefile).st_mtime_ns
+            h = mk(); h.prepare(); h.getdirlist()
+            if h.fromcache and os.stat(cachefile).st_mtime_ns != m1:
+                return {"confirmed": True, "scenario": "a cache hit rewrote the cache file (its age was refreshed)"}
+        if "prep_entries" in name or "prep_initfiles" in name:
+            if os.path.exists(cachefile):
+                os.unlink(cachefile)
+            os.symlink("/nonexistent/target", os.path.join(top, "dangling"))
+            open(os.path.join(top, "x..y"), "w").write("z")
+            os.mkfifo(os.path.join(top, "fifo"))
+            for cls in (DirHandler, UMNDirHandler):
+                h = mk(cls)
+                try:
+                    h.prepare()
+                    names = sorted(e.selector for e in h.fileentries)
+                except Exception as e:  # noqa
+                    return {"confirmed": True, "scenario": "directory with a dangling link, a fifo and a name containing '..'", "handler": cls.__name__, "raised": repr(e)}
+                if not {"/a.txt", "/b.txt", "/c.txt"} <= set(names):
+                    return {"confirmed": True, "scenario": "servable entries missing", "listing": names}
+        return {"confirmed": None, "note": "scenarios passed"}
+    finally:
+        shutil.rmtree(top, ignore_errors=True)
+        hb.rootpath = None; hm.rootpath = None; hm.handlers = None
